@@ -98,6 +98,11 @@ func c10Ops() []c10Op {
 		c10Op{op{"send3 {world:fees b}->x", 0, func() gen.Stmt {
 			return sv(&gen.SentLit{E: gen.Mon(U, "3")}, lst(sa("world:fees"), sa("b")), da("x"))
 		}}, ""},
+		// two accounts the store has no entry for (an exact store may answer both with one shared zero)
+		c10Op{op{"send2 world->p", 0, func() gen.Stmt { return sv(&gen.SentLit{E: gen.Mon(U, "2")}, sa("world"), da("p")) }}, ""},
+		c10Op{op{"send3 {q p b}->x", 0, func() gen.Stmt {
+			return sv(&gen.SentLit{E: gen.Mon(U, "3")}, lst(sa("q"), sa("p"), sa("b")), da("x"))
+		}}, ""},
 		c10Op{op{"send3 a unbounded->x", 0, func() gen.Stmt {
 			return sv(&gen.SentLit{E: gen.Mon(U, "3")}, &gen.SrcOverdraft{Addr: gen.Acct("a")}, da("x"))
 		}}, ""},
@@ -127,7 +132,7 @@ func runC10(w *mc.Worker) {
 	b := bigs(0, 2, 5)
 	aeur := bigs(0, 3)
 	name := "d2-L1"
-	bounds := "<= 2 declarations, 1 statement out of 35; sheets a in {0,1,3,6,-2}, b in {0,2,5}, x=0, a/EUR in {0,3}; meta acc in {a,x}; $w in {a,b,world,world:fees}; 4 store behaviours"
+	bounds := "<= 2 declarations, 1 statement out of 37; sheets a in {0,1,3,6,-2}, b in {0,2,5}, x=0, a/EUR in {0,3}; meta acc in {a,x}; $w in {a,b,world,world:fees}; 4 store behaviours"
 	type stage struct {
 		name, bounds    string
 		maxDecl, maxLen int
@@ -135,12 +140,12 @@ func runC10(w *mc.Worker) {
 	}
 	stages := []stage{{name, bounds, maxDecl, maxLen, 1}}
 	if w.Tier == "quick" {
-		stages = append(stages, stage{"d1-L2", "<= 1 declaration, 2 statements out of 35; same inputs", 1, 2, 2})
+		stages = append(stages, stage{"d1-L2", "<= 1 declaration, 2 statements out of 37; same inputs", 1, 2, 2})
 	} else {
 		a = append(a, H)
 		stages = []stage{
-			{"d2-L2", "<= 2 declarations, 1..2 statements out of 35; sheets a in {0,1,3,6,-2,H}, b in {0,2,5}, a/EUR in {0,3}; meta acc in {a,x}; $w in {a,b,world,world:fees}; 4 store behaviours", 2, 2, 1},
-			{"d1-L3", "<= 1 declaration, 3 statements out of 35; same inputs", 1, 3, 3},
+			{"d2-L2", "<= 2 declarations, 1..2 statements out of 37; sheets a in {0,1,3,6,-2,H}, b in {0,2,5}, a/EUR in {0,3}; meta acc in {a,x}; $w in {a,b,world,world:fees}; 4 store behaviours", 2, 2, 1},
+			{"d1-L3", "<= 1 declaration, 3 statements out of 37; same inputs", 1, 3, 3},
 		}
 	}
 	flags := map[string]struct{}{interpreter.ExperimentalOverdraftFunctionFeatureFlag: {}}
